@@ -152,7 +152,7 @@ type Op struct {
 
 func (o Op) Coq() string {
 	name := "None"
-	if o.Name != nil {
+	if o.Name != nil && *o.Name != 0 { // name code 0 = the explicit empty string New(""): an anonymous child, as without a name
 		name = cSome(cZ(int64(*o.Name)))
 	}
 	opts := func() string {
@@ -462,7 +462,9 @@ func applyWith(e *slog.Entry, s SetOp) *slog.Entry {
 func (t *TreeExec) Exec(o Op) int {
 	newArgs := func() []any {
 		var args []any
-		if o.Name != nil {
+		if o.Name != nil && *o.Name == 0 {
+			args = append(args, "")
+		} else if o.Name != nil {
 			args = append(args, fmt.Sprintf("n%d", *o.Name))
 		}
 		for _, s := range o.Opts {
@@ -596,6 +598,9 @@ func genTreeOps(r *Rng, p TreeProfile) []Op {
 			o = Op{Kind: "ONew", P: tgt}
 			if r.Chance(75) {
 				k := 1 + r.Intn(4)
+				if r.Chance(15) {
+					k = 0 // New("", ...)
+				}
 				o.Name = &k
 			}
 			for j := r.Intn(3); j > 0; j-- {
